@@ -65,6 +65,7 @@ structure Inv (s : St) : Prop where
   cnClosing : ∀ k, s.cn = .closing k → (2 ≤ k → s.conn = true) ∧ (4 ≤ k → s.cw = true) ∧ (5 ≤ k → s.rc = true) ∧ k ≤ 5
   cnHs : ∀ r, s.cn = .fin r → hsRes r = true → s.hsTried = true ∧ chBusy s = false
   cnRc : ∀ r, s.cn = .fin r → hsRes r = false → s.rc = true ∧ (r = .err .closedBeforeConn ∨ (r = .err .ctx ∧ s.conn = true))
+  lost : s.lost = []
   cs : ∀ c ∈ s.callers, callerInv s c = true
 
 /-! ### readers -/
@@ -103,7 +104,7 @@ theorem callerInv_keep (s s' : St) (c : Caller) (hu : s'.unreg = s.unreg) (hg : 
 
 set_option hygiene false in
 macro "conc_pre" : tactic => `(tactic| (
-  obtain ⟨ilock, iexcl, id1, id3, id4, id5, id7, id8, idk, iu4, iu7, iu8, ice, iwn, isc, icf, icc, ilw, ihb, ihd, icnC, icnH, icnR, ics⟩ := hi))
+  obtain ⟨ilock, iexcl, id1, id3, id4, id5, id7, id8, idk, iu4, iu7, iu8, ice, iwn, isc, icf, icc, ilw, ihb, ihd, icnC, icnH, icnR, ilost, ics⟩ := hi))
 
 set_option hygiene false in
 macro "conc_close" : tactic => `(tactic| (
